@@ -122,7 +122,7 @@ using Ins = std::vector<std::vector<S>>;
 template<typename S>
 struct Out
 {
-  int rows = 0, cols = 0;  // cols == 0: vector
+  int rows = 0, cols = -1;  // cols < 0: vector
   std::vector<S> v;        // row-major
 };
 
@@ -141,7 +141,7 @@ Out<S> out_vec(const V & m)
 {
   Out<S> o;
   o.rows = static_cast<int>(m.size());
-  o.cols = 0;
+  o.cols = -1;
   for (Eigen::Index i = 0; i < m.size(); ++i) o.v.push_back(m(i));
   return o;
 }
@@ -150,7 +150,7 @@ Out<S> out_scalar(const S & x)
 {
   Out<S> o;
   o.rows = 1;
-  o.cols = 0;
+  o.cols = -1;
   o.v.push_back(x);
   return o;
 }
@@ -455,11 +455,11 @@ struct Unit
         std::vector<int> order;
         for (auto id : p.outs) collect(st, id, seen, order);
         os << "Definition " << t.name << "_p" << pi << sig << " : "
-           << (p.cols ? "list (list R)" : "list R") << " :=\n";
+           << (p.cols >= 0 ? "list (list R)" : "list R") << " :=\n";
         binders(os);
         for (auto id : order) os << "  let n" << id << " := " << rhs(st, id) << " in\n";
         os << "  [";
-        if (p.cols == 0) {
+        if (p.cols < 0) {
           for (size_t i = 0; i < p.outs.size(); ++i) os << (i ? "; " : "") << ref(st, p.outs[i]);
         } else {
           for (int i = 0; i < p.rows; ++i) {
@@ -489,7 +489,7 @@ struct Unit
     }
     // relational form
     os << "Definition " << t.name << "_rel" << sig << " (out : "
-       << (t.paths[0].cols ? "list (list R)" : "list R") << ") : Prop :=\n  ";
+       << (t.paths[0].cols >= 0 ? "list (list R)" : "list R") << ") : Prop :=\n  ";
     for (size_t pi = 0; pi < t.paths.size(); ++pi)
       os << (pi ? "\n  \\/ " : "") << "(" << t.name << "_c" << pi << params << " /\\ out = " << t.name << "_p" << pi
          << params << ")";
